@@ -73,6 +73,8 @@ type Machine struct {
 	OnBusRead  func(addr uint16, val uint8)
 	tapped     bool
 
+	Aux uint64 // digest of whatever a check observed before the first cycle (part of the instance's trace)
+
 	AutoDrain bool // drain the sample channels after every cycle (checks that attach speakers without judging sound)
 
 	DisplayCleanups int
